@@ -1,6 +1,7 @@
 import CantoVerif.Spec.Coinswap
 import CantoVerif.Proofs.CoinswapWF
 import CantoVerif.Proofs.CoinswapArith
+import CantoVerif.Spec.CoinswapExamples
 /-!
 # C01 — liquidity-provider share value is never diluted by any pool operation.
 
@@ -510,24 +511,27 @@ theorem roundtrip_le (a X Y df S : Nat) (hX : 0 < X) (hS : 0 < S) (hdf : df ≤ 
 
 /-! ## non-vacuity: the hypotheses are met by a concrete state, and the step really happens -/
 
-def exEnv : Env :=
-  { modAddr := "m.coinswap", feeCollector := "m.fee_collector", blockedCs := ["m.coinswap"], blockedBank := ["m.coinswap"],
-    reserveAddr := [("lpt-1", "e.lpt-1")] }
-
-def exState : State :=
-  { bank := { bal := ⟨[(("e.lpt-1", "stake"), 3), (("e.lpt-1", "abtc"), 2), (("u0", "stake"), 10), (("u0", "lpt-1"), 3)]⟩,
-              sup := ⟨[("lpt-1", 3), ("stake", 13), ("abtc", 2)]⟩, accts := ["e.lpt-1", "u0", "m.coinswap"] },
-    params := { fee := 3000000000000000, taxRate := 0, feeDenom := "stake", feeAmt := 0, maxStd := 1000, maxSwap := [("abtc", 100)] },
-    std := "stake", pools := [{ counter := "abtc", lpt := "lpt-1", escrow := "e.lpt-1" }], seq := 2, nowSec := 100, nowNsec := 0 }
-
-def exSell : Op :=
-  .swap { inAddr := ⟨.lower, "u0"⟩, inDenom := "stake", inAmt := 4, outAddr := ⟨.lower, "u0"⟩, outDenom := "abtc", outAmt := 1,
-          deadline := 100, isBuy := false }
-
 /-- a 4-unit sell on the pool `(X, Y, L) = (3, 2, 3)` with fee 0.003 succeeds in the model and pays 1 unit -/
 example : (match step exEnv exState exSell with
            | .ok (s', _) => s'.bank.get "e.lpt-1" "stake" == 7 && s'.bank.get "e.lpt-1" "abtc" == 1
            | .error _ => false) = true := by decide +kernel
+
+/-- the boundary the property draws ("pools with outstanding pool tokens"): a pool whose last share was
+burned (`L = 0`) but whose escrow still holds coins hands them to the next provider — nobody holds shares, so
+nobody is diluted, and `KProp` is vacuous there.  Witness: pool emptied of shares with 5 stake / 7 abtc left
+in escrow; a 1-stake refill mints 1 share that owns all of it. -/
+example : (match step exEnv exEmptied exRefill with
+           | .ok (s', _) => s'.bank.supply "lpt-1" == 1 && s'.bank.get "e.lpt-1" "stake" == 6 && s'.bank.get "e.lpt-1" "abtc" == 8
+           | .error _ => false) = true := by decide +kernel
+
+/-- the environment and state of the examples satisfy the hypotheses of `k_step` -/
+example : SignerOK exState exSell := by
+  intro a ha p hp
+  simp only [signerOf, exSell, Option.some.injEq] at ha
+  subst ha
+  simp only [exState, List.mem_singleton] at hp
+  subst hp
+  decide
 
 end Coinswap
 end CV
